@@ -81,8 +81,34 @@ def wall(dt):
     return dt.toordinal() * 86400 + dt.hour * 3600 + dt.minute * 60 + dt.second
 
 
+class ImplTimeout(BaseException):
+    pass
+
+
+def _on_alarm(signum, frame):
+    raise ImplTimeout()
+
+
+IMPL_TIMEOUT = 10.0
+
+
 def run_impl(case):
-    """-> dict(phase, status 'L'|'X'|'R', exn, items, extra) ; extra lists whole-second / tzinfo breaches"""
+    """-> dict(phase, status 'L'|'X'|'R'|'T', exn, items, extra); extra lists whole-second / tzinfo
+    breaches; 'T' = no answer within IMPL_TIMEOUT seconds although the model terminated within
+    its fuel (watchdog against an implementation that scans without end)"""
+    import signal
+    old = signal.signal(signal.SIGALRM, _on_alarm)
+    signal.setitimer(signal.ITIMER_REAL, IMPL_TIMEOUT)
+    try:
+        return _run_impl(case)
+    except ImplTimeout:
+        return {"phase": 1, "status": "T", "exn": 0, "items": [], "extra": []}
+    finally:
+        signal.setitimer(signal.ITIMER_REAL, 0)
+        signal.signal(signal.SIGALRM, old)
+
+
+def _run_impl(case):
     from dateutil import rrule as R
     N = case["N"]
     with warnings.catch_warnings():
@@ -389,3 +415,154 @@ def mk_case(freq, y, m, d, until=None, N=60, **kw):
 def case_key(case):
     """canonical identity of the rule (for distinct counting)"""
     return repr((encode(case), case["N"]))
+
+
+# ------------------------------------------------------------------ evaluation of one case
+ENTRY_MODEL, ENTRY_SPEC, ENTRY_WF, ENTRY_DAYOK, ENTRY_WEEK = 0, 1, 2, 3, 4
+FUEL_PROBE = [40, 80, 150, 400, 800, 800, 800]       # model loop passes allowed without a cap
+FUEL_RUN = [80, 150, 300, 900, 1500, 1500, 1500]    # ... with the UNTIL cap in place
+SPEC_FUEL = 4000
+
+
+class TimedOracle:
+    """bin/oracle_rr with a per-call timeout: a call that does not answer in time kills and
+    restarts the process and returns 'TIMEOUT' (the case is then counted as skipped/inconclusive)."""
+
+    def __init__(self, exe):
+        import subprocess
+        self.exe = exe
+        self._sp = subprocess
+        self.restarts = 0
+        self._start()
+
+    def _start(self):
+        self.p = self._sp.Popen(["bash", "-c", "ulimit -s unlimited 2>/dev/null; exec " + self.exe],
+                                stdin=self._sp.PIPE, stdout=self._sp.PIPE, bufsize=0)
+        self.buf = b""
+
+    def call(self, entry, args, timeout=4.0):
+        import os
+        import select
+        import time
+        self.p.stdin.write(("%d %s\n" % (entry, " ".join(map(str, args)))).encode())
+        end = time.time() + timeout
+        fd = self.p.stdout.fileno()
+        while b"\n" not in self.buf:
+            left = end - time.time()
+            r = select.select([fd], [], [], max(left, 0))[0] if left > 0 else []
+            if not r:
+                self.p.kill()
+                self.p.wait()
+                self.restarts += 1
+                self._start()
+                return "TIMEOUT"
+            chunk = os.read(fd, 1 << 16)
+            if not chunk:
+                raise RuntimeError("oracle_rr died on entry %d args %r" % (entry, args[:60]))
+            self.buf += chunk
+        line, self.buf = self.buf.split(b"\n", 1)
+        line = line.decode().strip()
+        if line.startswith(("OVF", "STACK", "FAIL")):
+            return line
+        return [int(t) for t in line.split()]
+
+    def close(self):
+        try:
+            self.p.stdin.close()
+            self.p.wait(timeout=5)
+        except Exception:
+            self.p.kill()
+
+
+def relocate_to_end_of_time(case, rnd):
+    """move the start next to MAXYEAR so that a rule that never matches ends by the MAXYEAR stop"""
+    import calendar
+    s = case["start"]
+    f = case["freq"]
+    s["y"] = 9999 if f >= 3 else 9999 - rnd.choice([0, 0, 1, 2, 5])
+    if f >= 4:
+        s["m"], s["d"] = 12, rnd.choice([29, 30, 31])
+    elif f == 3:
+        s["m"] = rnd.choice([11, 12])
+    s["d"] = min(s["d"], calendar.monthrange(s["y"], s["m"])[1])
+    case["until"] = None
+
+
+def prepare(case, oracle, rnd):
+    """Make sure the real implementation will stop quickly on this case: probe the model with a
+    small fuel; if it runs out add an UNTIL cap; if it still runs out (a rule that never produces
+    a candidate never reaches the UNTIL test) move the start next to year 9999, where the scan ends
+    by the MAXYEAR stop; otherwise the case is skipped.
+    -> model result dict, or None when skipped"""
+    f = case["freq"]
+    if not 0 <= f <= 6:
+        f = 0
+
+    def run(fuel):
+        r = oracle.call(ENTRY_MODEL, encode(case) + [case["N"], fuel])
+        if r == "TIMEOUT":
+            return {"status": "F", "phase": -1, "exn": 0, "items": [], "timeout": True}
+        return decode_result(r)
+    m = run(FUEL_PROBE[f])
+    if m["status"] != "F":
+        return m
+    if m.get("timeout"):
+        return None
+    if case.get("until") is None:
+        case["until"] = cap_until(case, rnd, periods=rnd.randint(1, MAX_PERIODS[f] // 2))
+        case["relocated"] = "until-cap"
+        m = run(FUEL_RUN[f])
+        if m["status"] != "F":
+            return m
+        if m.get("timeout"):
+            return None
+    relocate_to_end_of_time(case, rnd)
+    case["relocated"] = "end-of-time"
+    m = run(FUEL_RUN[f])
+    if m["status"] == "F":
+        return None
+    return m
+
+
+def spec_verdict(i, s):
+    """compare implementation observation i with specification result s (rule inside spec_wf).
+    -> None (agree) | 'inconclusive' | description of the disagreement"""
+    if s["status"] == "F":
+        return "inconclusive"
+    n = len(i["items"])
+    if i["status"] == "T":
+        return None
+    if i["status"] == "L":
+        if s["items"][:n] != i["items"] or len(s["items"]) < n:
+            return "first %d occurrences differ" % n
+        return None
+    if i["status"] == "X":
+        if s["items"] != i["items"] or s["status"] != "X":
+            return "recurrence set differs (implementation exhausted after %d)" % n
+        return None
+    # raised
+    if i["exn"] != 1:
+        return "raises %s (only ValueError is allowed)" % (i["exn"],)
+    if s["items"] != i["items"] or s["status"] != "X":
+        return "raises ValueError although the rule has further occurrences"
+    return None
+
+
+def evaluate(case, oracle, model=None):
+    a = encode(case)
+    if model is None:
+        f = case["freq"] if 0 <= case["freq"] <= 6 else 0
+        mr = oracle.call(ENTRY_MODEL, a + [case["N"], FUEL_RUN[f]])
+        model = {"status": "F", "phase": -1, "exn": 0, "items": [], "timeout": True} if mr == "TIMEOUT" \
+            else decode_result(mr)
+    impl = run_impl(case)
+    wf = oracle.call(ENTRY_WF, a) == [1]
+    spec = None
+    sv = None
+    if wf:
+        sr = oracle.call(ENTRY_SPEC, a + [case["N"], SPEC_FUEL])
+        spec = {"status": "F", "phase": -1, "exn": 0, "items": [], "timeout": True} if sr == "TIMEOUT" \
+            else decode_result(sr)
+        sv = spec_verdict(impl, spec)
+    return {"impl": impl, "model": model, "wf": wf, "spec": spec, "spec_verdict": sv,
+            "model_agrees": same_obs(impl, model) if model["status"] != "F" else None}
